@@ -452,7 +452,7 @@ def _leads_to_raise(cfg, nid, limit=6):
         n = cfg.nodes[cur]
         if n.kind == "stmt" and isinstance(n.ast, ast.Raise):
             return True
-        nxt = [m for m, l in cfg.succ.get(cur, []) if l != "exc"]
+        nxt = [m for m, l in cfg.succ.get(cur, []) if l not in ("exc", "excp")]
         if len(nxt) != 1 or cur in seen:
             return False
         seen.add(cur)
